@@ -3,6 +3,7 @@ import Driver.Ctl
 import Driver.Codec
 import Driver.Ops
 import Driver.SpecP
+import Driver.ProcR
 open Lean Driver
 
 def handle (line : String) : Verdict :=
@@ -15,6 +16,7 @@ def handle (line : String) : Verdict :=
       else if mode == "codec" then CodecReplay.replay j
       else if mode == "ops" then OpsReplay.replay j
       else if mode == "spec" then SpecReplay.replay j
+      else if mode == "proc" then ProcReplay.replay j
       else .error ("unknown mode " ++ mode)
     match r with
     | .ok v => v
